@@ -32,6 +32,9 @@ def main(tier, only=None):
                    e1.H("h_line_relative", "line/%s/advances-with-physical" % fk, unwind=14, defines=d, timeout=600),
                    e1.H("h_line_eof", "line/%s/eof-token-adjusted" % fk, unwind=14, defines=d, timeout=600),
                    e1.H("h_line_c11", "line/%s/c11-following-line-is-n" % fk, unwind=14, defines=d, timeout=600)]
+        for form, fk in ((0, "hash-line"), (1, "gnu-marker")):
+            hs.append(e1.H("h_line_relative", "line/%s/inside-conditional-group" % fk, unwind=14, defines=("FORM=%d" % form, "__NO_CTYPE", "INCOND"), timeout=600,
+                           desc="the same directive between #ifdef and #endif: accepted, and __LINE__ advances with the physical line"))
         hs.append(e1.H("h_line_macro_origin", "line/macro-origin/line-and-file-of-outermost-invocation", unwind=14, defines=("FORM=0", "__NO_CTYPE"), timeout=600))
         chk.bounds += ["__LINE__/__FILE__ in a macro body: origin chains of depth 0..2 across three files with symbolic physical lines and symbolic #line offsets per file"]
         e1.run_set(chk, "c18/line.c", hs, workers=int(os.environ.get("VERIF_WORKERS", "8")))
